@@ -168,9 +168,9 @@ package job
 //@   ensures [C11] exactly-one-condition: result1 == nil ==> oneOf(result0)
 //@   ensures [C06,C12] admission-error-is-final: admErr(rj) ==> result1 == nil && result0.Finished != nil && result0.Finished.Result == execution.JobResultAdmissionError
 //@   ensures [C11] unstarted-is-queueing: !admErr(rj) && !IsStarted(rj) ==> result1 == nil && result0.Queueing != nil
-//@   ensures [C10] success-only-if-strategy-satisfied: result1 == nil && !admErr(rj) && result0.Finished != nil && result0.Finished.Result == execution.JobResultSuccess
+//@   ensures [C10,C11] success-only-if-strategy-satisfied: result1 == nil && !admErr(rj) && result0.Finished != nil && result0.Finished.Result == execution.JobResultSuccess
 //@        ==> parallel.satisfied(rj, rj.Status.Tasks) && rj.Spec.KillTimestamp.IsZero()
-//@   ensures [C10] failed-only-if-strategy-impossible: result1 == nil && !admErr(rj) && result0.Finished != nil && result0.Finished.Result == execution.JobResultFailed
+//@   ensures [C10,C11] failed-only-if-strategy-impossible: result1 == nil && !admErr(rj) && result0.Finished != nil && result0.Finished.Result == execution.JobResultFailed
 //@        ==> parallel.impossible(rj, rj.Status.Tasks) && !parallel.satisfied(rj, rj.Status.Tasks) && rj.Spec.KillTimestamp.IsZero()
 //@   ensures [C10] finished-only-when-no-task-alive: result1 == nil && !admErr(rj) && result0.Finished != nil
 //@        ==> (forall i int :: 0 <= i && i < parallel.numIdx(parallel.specOf(rj)) ==> settledI(rj, i))
